@@ -110,7 +110,10 @@ def compare(kind, pure, fast, args):
     fa, fb = flat(a, []), flat(b, [])
     if len(fa) != len(fb):
         return "result shapes differ"
-    scale = max([abs(x) for x in fa if isinstance(x, F)] + [F(1, 2 ** 40)])
+    # rounding allowance relative to the larger of the outputs and 1 (inputs are dyadic numbers of magnitude 1..32; parameters
+    # live in [0,1]): an output that is itself a rounding residue (5e-13 for a parameter that is exactly 0) is not compared
+    # relative to its own size
+    scale = max([abs(x) for x in fa if isinstance(x, F)] + [F(1)])
     for x, y in zip(fa, fb):
         if isinstance(x, F) and isinstance(y, F):
             if kind == "exact":
